@@ -259,6 +259,7 @@ structure World where
   phases : String → Option OPhase := fun _ => none
   phaseEvents : List PhaseEvent := []
   remoteRefs : List (String × String) := []   -- RemotePhaseReferences collected during a pass
+  applied : List (Key × Obj) := []            -- result of every apply, parallel to the apply events
 
 /-- Run the third-party operations scheduled before the next PKO write. -/
 def World.beforeWrite (w : World) : World :=
@@ -278,7 +279,7 @@ def World.apply (w : World) (k : Key) (a : Applied) : World × Obj :=
   let before := w.store.get k
   let (s, o, created) := w.store.apply k a
   let changed : Bool := match before with | some b => decide (b ≠ o) | none => true
-  ({ w with store := s }.log (.apply k created changed), o)
+  ({ w with store := s, applied := w.applied ++ [(k, o)] }.log (.apply k created changed), o)
 
 /-- The availability probe used by the harness: Ready=True, and a declared observedGeneration
 must equal metadata.generation. -/
